@@ -16,7 +16,8 @@ def main():
     pat = sys.argv[1] if len(sys.argv) > 1 else ''
     import contracts
     R = Registry(); R.tasks = []
-    for m in contracts.ALL:
+    import os
+    for m in list(contracts.ALL) + [x for x in os.environ.get('PYVC_EXTRA_MODULES', '').split(',') if x]:
         mod = importlib.import_module('contracts.' + m); getattr(mod, '_reg_all', mod.register)(R)
     eng = Engine(repo, R)
     verbose = '-t' in sys.argv
